@@ -262,23 +262,23 @@ def on_output(p, r, exc, acc):
 
 
 MOD_ENCS = ["utf-8", "latin-1", "cp1251", "koi8-r", "ascii"]
-MOD_STYLES = ["comment", "input_encoding", "both", "conflicting", "bom", "bom+comment"]
+MOD_STYLES = ["comment", "input_encoding", "both", "conflicting", "bom", "bom+comment", "bom+input_encoding", "bom+contradicting-comment"]
 
 
 def h_modfile(p):
     enc = MOD_ENCS[p.choose(len(MOD_ENCS), "enc")]
     style = MOD_STYLES[p.choose(len(MOD_STYLES), "style")]
-    return dict(enc=enc, style=style)
+    return dict(enc=enc, style=style, future=bool(p.choose(2, "future_imports")))
 
 
 def on_modfile(p, r, exc, acc):
     acc.tags["ran"] += 1
-    res = realproc.call("module_roundtrip", r["enc"], r["style"])
+    res = realproc.call("module_roundtrip", r["enc"], r["style"], r["future"])
     acc.replayed += 1
     for stage, got, want in res:
         acc.vcs += 1
         if got != want:
-            acc.candidate(kind="module-file-roundtrip", input=dict(encoding=r["enc"], declared_by=r["style"], stage=stage),
+            acc.candidate(kind="module-file-roundtrip", input=dict(encoding=r["enc"], declared_by=r["style"], stage=stage, future_imports=r["future"]),
                           detail="rendered %r expected %r" % (got, want))
     acc.sample(dict(encoding=r["enc"], declared_by=r["style"]))
 
@@ -396,7 +396,7 @@ if "construction" in CASE:
 elif "declared_by" in CASE:
     sys.path.insert(0, "/verif")
     from props.realops import module_roundtrip
-    for stage, got, want in module_roundtrip(CASE["encoding"], CASE["declared_by"]):
+    for stage, got, want in module_roundtrip(CASE["encoding"], CASE["declared_by"], CASE.get("future_imports", False)):
         print(stage, repr(got), "expected", repr(want))
         if got != want: bad = "template text changed on the %s path" % stage
 elif "data" in CASE:
